@@ -421,6 +421,21 @@ func runC01(c *Ctx) {
 				}
 			}
 		}
+		// a keyboard macro whose definition calls the macro being defined (then called): it must not feed itself for ever
+		for _, ks := range [][]string{
+			{"\x18(", "a", "\x18)", "\x18(", "\x18e", "\x18)", "\x18e", "b", "\r"},
+			{"\x18(", "\x18e", "a", "\x18)", "\x18e", "\r"},
+		} {
+			cfg := harness.Config{W: 40, H: 12, Prompt: "$ "}
+			bjs = append(bjs, bj{fmt.Sprintf("[macro calling itself] mode=emacs keys=%q", ks), harness.Job{ID: len(bjs), Cfg: cfg, Calls: [][]harness.Answer{Keys(ks...)}}})
+		}
+		for _, ks := range [][]string{
+			{"x", "\x1b", "q", "a", "@", "a", "q", "@", "a", "\r"},
+			{"x", "\x1b", "q", "a", "h", "q", "q", "a", "@", "a", "l", "q", "@", "a", "\r"},
+		} {
+			cfg := harness.Config{RC: modeRC("vi"), W: 40, H: 12, Prompt: "$ "}
+			bjs = append(bjs, bj{fmt.Sprintf("[macro calling itself] mode=vi keys=%q", ks), harness.Job{ID: len(bjs), Cfg: cfg, Calls: [][]harness.Answer{Keys(ks...)}}})
+		}
 		hangs := 0
 		next := 0
 		c.Pool.Stream(func() (harness.Job, bool) {
